@@ -600,6 +600,188 @@ def handle_history_case(ctx, client, root_s, root_t, idx, am_root, transport="pi
                 pass
 
 
+def multi_handle_case(ctx, client, root_s, root_t, idx, am_root, transport="pipe"):
+    """Mixed setters over 2-3 handles that are open at the same time: a change made through one handle must not
+    leak into another file (e.g. handle B's chmod re-sending the size that was set through handle A). After every
+    call ALL files are compared with their twins."""
+    rng = ctx.rng
+    nfiles = rng.choice([2, 2, 3])
+    names = ["m%d_%d" % (idx, i) for i in range(nfiles)]
+    t0 = (rng.randrange(1, 1 << 31), rng.randrange(1, 1 << 31))
+    sizes = []
+    for i, nm in enumerate(names):
+        size = rng.choice([100, 1000, 5000, 40000]) + i
+        sizes.append(size)
+        data = bytes([i + 1]) + rng.randbytes(size - 1)
+        for root in (root_s, root_t):
+            p = os.path.join(root, nm)
+            with open(p, "wb") as f:
+                f.write(data)
+            os.chmod(p, 0o644)
+            os.utime(p, t0)
+    seq = []
+    for _ in range(rng.randint(3, 8)):
+        h = rng.randrange(nfiles)
+        seq.append((h, gen_op(rng, sizes[h], "file", am_root)))
+    if not any(o[0] == "truncate" for _, o in seq):
+        seq[0] = (seq[0][0], gen_op_of(rng, "truncate", sizes[seq[0][0]], am_root))
+    desc = dict(kind="file", by="several open handles", files=nfiles, sequence=[(h, list(o)) for h, o in seq],
+                transport=transport)
+    ctx.case(("multi", nfiles, tuple(seq), transport), sample=desc if idx % 71 == 4 else None)
+    handles = []
+    try:
+        for nm in names:
+            handles.append(client.open("/" + nm, rng.choice(["r+", "r+b"])))
+        truncated = set()
+        for step, (h, op) in enumerate(seq):
+            try:
+                apply_os(op, os.path.join(root_t, names[h]))
+            except OSError:
+                pass
+            try:
+                apply_sftp(op, handles[h], True, None)
+            except (IOError, OSError):
+                pass
+            ctx.count("sftp_attr_calls")
+            ctx.count("multi_handle_ops")
+            if op[0] == "truncate":
+                truncated.add(h)
+            elif truncated - {h}:
+                ctx.count("multi_handle_setter_after_truncate_on_other_handle")
+            for i, nm in enumerate(names):
+                sv, tw = snap(os.path.join(root_s, nm)), snap(os.path.join(root_t, nm))
+                ctx.count("multi_handle_file_comparisons")
+                bad = next((f for f in FIELDS if sv.get(f) != tw.get(f)), None)
+                if bad is None and content(os.path.join(root_s, nm)) != content(os.path.join(root_t, nm)):
+                    bad = "bytes"
+                if bad:
+                    which = "the file of the handle used" if i == h else "a file open through ANOTHER handle"
+                    ctx.violation("%s through one of several open handles: %s differs from the twin (%s)"
+                                  % (op[0], which, "st_" + bad if bad != "bytes" else bad),
+                                  "step %d: %s on handle %d; afterwards %s of file %d differs from the twin tree"
+                                  % (step, op[0], h, bad, i), dict(case=desc, step=step, file=i, served=sv, twin=tw))
+                    return
+    finally:
+        for f in handles:
+            try:
+                f.close()
+            except Exception:
+                pass
+        for root in (root_s, root_t):
+            for nm in names:
+                try:
+                    os.remove(os.path.join(root, nm))
+                except OSError:
+                    pass
+
+
+def iso_long_run(args):
+    """Child process: soft RLIMIT_NOFILE lowered, ONE server session, many size changes by path and by handle; every
+    one must work and equal the twin; the number of open descriptors of the process must not grow with them."""
+    import random
+    import resource
+
+    n, limit, seed = args["n"], args["nofile"], args["seed"]
+    rng = random.Random(seed)
+    base = tempfile.mkdtemp(prefix="vf-c31l-")
+    root_s, root_t = os.path.join(base, "served"), os.path.join(base, "twin")
+    os.mkdir(root_s)
+    os.mkdir(root_t)
+    out = dict(done=0, failures=[], mismatches=[], fds=[])
+    bench = None
+    try:
+        bench = MonBench(root_s)
+        c = bench.client
+        names = ["L%d" % i for i in range(4)]
+        for nm in names:
+            for root in (root_s, root_t):
+                with open(os.path.join(root, nm), "wb") as f:
+                    f.write(b"\x01" + bytes(2999))
+        keep = c.open("/" + names[3], "r+")
+        hard = resource.getrlimit(resource.RLIMIT_NOFILE)[1]
+        high = (min(4096, hard) if hard != resource.RLIM_INFINITY else 4096, hard)
+
+        def low():
+            resource.setrlimit(resource.RLIMIT_NOFILE, (limit, hard))
+
+        def nfd():
+            resource.setrlimit(resource.RLIMIT_NOFILE, high)  # the harness's own opens must not hit the limit
+            try:
+                return len(os.listdir("/proc/self/fd"))
+            finally:
+                low()
+
+        low()
+        out["fds"].append(nfd())
+        for i in range(n):
+            nm = names[i % 4]
+            size = rng.choice([0, 1, 100, 3000, 5000, rng.randint(0, 6000)])
+            how = ("path", "fresh handle", "long-lived handle")[i % 3] if nm != names[3] else "long-lived handle"
+            if how == "long-lived handle":
+                nm = names[3]
+            os.truncate(os.path.join(root_t, nm), size)  # (path-based: needs no descriptor)
+            try:
+                if how == "path":
+                    c.truncate("/" + nm, size)
+                elif how == "fresh handle":
+                    with c.open("/" + nm, "r+") as f:
+                        f.truncate(size)
+                else:
+                    keep.truncate(size)
+            except Exception as e:
+                out["failures"].append(dict(i=i, how=how, error=repr(e)[:200], fds=nfd()))
+                if len(out["failures"]) >= 3:
+                    break
+                continue
+            out["done"] += 1
+            resource.setrlimit(resource.RLIMIT_NOFILE, high)
+            try:
+                with open(os.path.join(root_s, nm), "rb") as a, open(os.path.join(root_t, nm), "rb") as b:
+                    if a.read() != b.read():
+                        out["mismatches"].append(dict(i=i, how=how))
+            finally:
+                low()
+            if i in (9, n // 2, n - 1):
+                out["fds"].append(nfd())
+        resource.setrlimit(resource.RLIMIT_NOFILE, high)
+        keep.close()
+    finally:
+        if bench is not None:
+            bench.close()
+        shutil.rmtree(base, ignore_errors=True)
+    return out
+
+
+def long_run(ctx):
+    from vf import iso
+
+    n = ctx.pick(400, 3000)
+    res = iso.call("vf.props.c31:iso_long_run", dict(n=n, nofile=256, seed=ctx.rng.getrandbits(30)),
+                   timeout=ctx.pick(120, 600))
+    ctx.case(("long-run", n, ctx.shard), sample=dict(kind="long run, RLIMIT_NOFILE=256", size_changes=n))
+    if res.get("status") != "ok":
+        ctx.inconclusive("long-run child did not finish: %s %s" % (res.get("status"),
+                                                                  (res.get("error") or res.get("stacks") or "")[-400:]))
+        return
+    v = res["value"]
+    ctx.count("long_run_size_changes_done", v["done"])
+    ctx.count("long_run_fd_samples", len(v["fds"]))
+    if v["failures"]:
+        ctx.violation("size change fails after many size changes in one server process (descriptor limit reached)",
+                      "with RLIMIT_NOFILE=256, size change #%d (%s) failed: %s; os.truncate on the twin succeeded"
+                      % (v["failures"][0]["i"], v["failures"][0]["how"], v["failures"][0]["error"]),
+                      dict(failures=v["failures"], fds=v["fds"], done=v["done"]))
+        return
+    if v["mismatches"]:
+        ctx.violation("long run: a size change left different bytes than os.truncate", "mismatch in long run", v)
+        return
+    if len(v["fds"]) >= 3 and v["fds"][-1] - v["fds"][1] > 8:
+        ctx.violation("open descriptors of the process grow with the number of size changes",
+                      "descriptors open after 10 / %d size changes: %d / %d" % (n, v["fds"][1], v["fds"][-1]), v)
+        return
+    ctx.count("long_run_fd_growth_checked")
+
+
 BUFSIZES = [-1, 1, 64, 32768]
 
 
@@ -741,6 +923,8 @@ def run_pipe(ctx, n, am_root):
                     cwd_case(ctx, bench.client, root_s, root_t, done, am_root)
                 elif done % 8 == 2:
                     handle_history_case(ctx, bench.client, root_s, root_t, done, am_root)
+                elif done % 8 == 4:
+                    multi_handle_case(ctx, bench.client, root_s, root_t, done, am_root)
                 else:
                     one_case(ctx, bench.client, root_s, root_t, done, am_root)
                 done += 1
@@ -793,17 +977,23 @@ def run(ctx):
     am_root = os.geteuid() == 0
     ctx.note("runs_as_root", am_root)
     run_pipe(ctx, ctx.pick(700, 9000), am_root)
+    if ctx.quick or ctx.shard % 3 == 0:
+        long_run(ctx)
     if not ctx.quick and ctx.shard % 4 == 0:
         ctx.guard(run_ssh, ctx, 60, am_root)
     ctx.require("sftp_attr_calls", ctx.pick(3000, 40000))
-    ctx.require("stat_comparisons", ctx.pick(2500, 30000))
-    ctx.require("content_comparisons", ctx.pick(2000, 25000))
+    ctx.require("stat_comparisons", ctx.pick(1500, 20000))
+    ctx.require("content_comparisons", ctx.pick(1200, 15000))
     ctx.require("truncate_contents_equal", ctx.pick(150, 2000))
     for kind, opk, by in CELLS:
         ctx.require("cell %s | %s | %s" % (kind, opk, by), ctx.pick(20, 400))
     ctx.require("symlink_lstat_comparisons", ctx.pick(250, 5000))
     for form, opk in CWD_CELLS:
         ctx.require("cwd %s | %s" % (form, opk), ctx.pick(12, 300))
+    ctx.require("multi_handle_ops", ctx.pick(1500, 30000))
+    ctx.require("multi_handle_setter_after_truncate_on_other_handle", ctx.pick(300, 6000))
+    ctx.require("long_run_size_changes_done", ctx.pick(2000, 10000))
+    ctx.require("long_run_fd_growth_checked", ctx.pick(5, 4))
     for h, a in HIST_CELLS:
         ctx.require("hist %s | %s" % (h, a), ctx.pick(10, 250))
     ctx.require("hist_final_content_comparisons", ctx.pick(350, 8000))
@@ -815,8 +1005,8 @@ def run(ctx):
     ctx.require("buffered_handle_final_comparisons", ctx.pick(500, 8000))
     ctx.require("buffered_handle_truncate_with_unflushed_writes", ctx.pick(60, 800))
     ctx.require("buffered_handle_ops_with_readahead", ctx.pick(20, 300))
-    ctx.require("wire_setstat_requests", ctx.pick(800, 8000))
+    ctx.require("wire_setstat_requests", ctx.pick(500, 5000))
     ctx.require("wire_fsetstat_requests", ctx.pick(1000, 10000))
     for k in ("chmod", "chown", "utime", "truncate"):
-        ctx.require("ops_%s_by path" % k, ctx.pick(100, 1000))
-        ctx.require("ops_%s_by handle" % k, ctx.pick(80, 800))
+        ctx.require("ops_%s_by path" % k, ctx.pick(60, 600))
+        ctx.require("ops_%s_by handle" % k, ctx.pick(50, 500))
